@@ -529,8 +529,21 @@ impl Solver {
     }
 
     pub fn check(&mut self) -> SatResult {
+        self.check_with("(check-sat)")
+    }
+
+    /// `check-sat` after z3's own sum-of-monomials normalisation: polynomial identities
+    /// (mod p) cancel syntactically instead of going to the non-linear arithmetic core.
+    pub fn check_som(&mut self) -> SatResult {
+        if self.kind == SolverKind::Cvc5 {
+            return self.check();
+        }
+        self.check_with("(check-sat-using (then (! simplify :som true :som_blowup 1000000) smt))")
+    }
+
+    fn check_with(&mut self, cmd: &str) -> SatResult {
         let t0 = Instant::now();
-        self.send("(check-sat)");
+        self.send(cmd);
         let out = self.sync();
         let dt = t0.elapsed().as_secs_f64();
         self.stats.queries += 1;
@@ -572,6 +585,17 @@ impl Solver {
                 SatResult::Unknown(other.to_string())
             }
         }
+    }
+
+    /// push; assert all; check (with sum-of-monomials normalisation); pop.
+    pub fn query_som(&mut self, fms: &[Fm]) -> SatResult {
+        self.push();
+        for f in fms {
+            self.assert_fm(f);
+        }
+        let r = self.check_som();
+        self.pop();
+        r
     }
 
     /// push; assert all; check; pop.
